@@ -26,7 +26,7 @@ man = dict(
     hooks=dict(
         guard="prometheus_verif",
         enable="RUSTFLAGS='--cfg prometheus_verif' (set for the harness crates in harness/.cargo/config.toml; they depend on /repo by path)",
-        baseline_off_cmd="cd /repo && cargo nextest run --workspace --no-fail-fast --test-threads 8 --offline || cargo test --workspace --no-fail-fast --offline",
+        baseline_off_cmd="cd /repo && (cargo nextest run --workspace --no-fail-fast --tool-config-file pb:/w/lib/nextest.toml --profile pb --test-threads 8 --offline || cargo test --workspace --no-fail-fast --offline)",
         source_commits=HOOK_COMMITS,
         add_only=True,
     ),
